@@ -19,7 +19,7 @@ func trackerMethod(p *an.Prog, typ string, pred func(*ssa.Function) bool) *ssa.F
 }
 
 func closesChan(f *ssa.Function) bool {
-	for _, b := range f.Blocks {
+	for _, b := range an.ScanBlocks(f) {
 		for _, ins := range b.Instrs {
 			if call, ok := ins.(*ssa.Call); ok && an.BuiltinName(call) == "close" {
 				return true
@@ -30,7 +30,7 @@ func closesChan(f *ssa.Function) bool {
 }
 
 func makesChan(f *ssa.Function) bool {
-	for _, b := range f.Blocks {
+	for _, b := range an.ScanBlocks(f) {
 		for _, ins := range b.Instrs {
 			if _, ok := ins.(*ssa.MakeChan); ok {
 				return true
@@ -128,7 +128,7 @@ func waitDiscipline(c *an.Check, construct string, fn *ssa.Function, isGetter fu
 	n := 0
 	ok, why := true, ""
 	for _, g := range an.WithClosures(fn) {
-		for _, b := range g.Blocks {
+		for _, b := range an.ScanBlocks(g) {
 			for _, ins := range b.Instrs {
 				sel, isSel := ins.(*ssa.Select)
 				if !isSel || !sel.Blocking {
@@ -255,7 +255,7 @@ func epochSections(c *an.Check) (h *srvHandlers, mtx *types.Var, bcast, getw *ss
 		name string
 		fn   *ssa.Function
 	}{{"attach", h.sess}, {"detach", one(closuresWhere(h.sess, func(g *ssa.Function) bool {
-		for _, b := range g.Blocks {
+		for _, b := range an.ScanBlocks(g) {
 			for _, ins := range b.Instrs {
 				if isPeerStore(ins) {
 					return true
@@ -315,7 +315,7 @@ func epochSections(c *an.Check) (h *srvHandlers, mtx *types.Var, bcast, getw *ss
 						return true
 					}
 					// no partner: result #1 of the current-peers helper is nil on this path
-					for _, b := range fn.Blocks {
+					for _, b := range an.ScanBlocks(fn) {
 						for _, ins := range b.Instrs {
 							if e, ok := ins.(*ssa.Extract); ok && e.Index == 1 && strings.HasSuffix(e.Type().String(), "sessionPeerTracker") && s.IsNil(e) {
 								return true
@@ -338,7 +338,7 @@ func c22(c *an.Check) {
 	}
 	// (b) R4: the attaching call takes its wait channel before it broadcasts its own registration
 	var firstGet *ssa.Call
-	for _, b := range h.sess.Blocks {
+	for _, b := range an.ScanBlocks(h.sess) {
 		for _, ins := range b.Instrs {
 			if isCallToFn(ins, getw) && an.InnermostLoop(h.sess, b) == nil {
 				firstGet = ins.(*ssa.Call)
@@ -439,7 +439,7 @@ func epochAnnouncementCompares(c *an.Check, h *srvHandlers) {
 	// (c) the announcement decision must see the epoch VALUE
 	nPtr, bad := 0, ""
 	for _, g := range an.WithClosures(h.sess) {
-		for _, b := range g.Blocks {
+		for _, b := range an.ScanBlocks(g) {
 			for _, ins := range b.Instrs {
 				bo, ok := ins.(*ssa.BinOp)
 				if !ok || (bo.Op != token.EQL && bo.Op != token.NEQ) {
@@ -467,7 +467,7 @@ func epochAnnouncementCompares(c *an.Check, h *srvHandlers) {
 	// sides (a "previous" pointer that aliases the "current" cell never differs): a shared target is only acceptable when it
 	// is allocated inside the loop (a fresh cell per iteration).
 	nDeref, alias := 0, ""
-	for _, b := range h.sess.Blocks {
+	for _, b := range an.ScanBlocks(h.sess) {
 		for _, ins := range b.Instrs {
 			bo, ok := ins.(*ssa.BinOp)
 			if !ok || (bo.Op != token.EQL && bo.Op != token.NEQ) {
@@ -567,7 +567,7 @@ func c24(c *an.Check) {
 			},
 			Reqs: []an.Req{
 				{Name: "no Listen attached (listening == false)", Holds: func(s *an.State, at ssa.Instruction) bool {
-					for _, b := range rel.Blocks {
+					for _, b := range an.ScanBlocks(rel) {
 						for _, ins := range b.Instrs {
 							if u, ok := ins.(*ssa.UnOp); ok && an.IsFieldLoad(u, listeningF) && s.IsFalse(u) {
 								return true
@@ -641,7 +641,7 @@ func listenDiff(c *an.Check, listen *ssa.Function, wantF *types.Var) {
 	p := c.P
 	// locate the local sent-set
 	var sent *ssa.MakeMap
-	for _, b := range listen.Blocks {
+	for _, b := range an.ScanBlocks(listen) {
 		for _, ins := range b.Instrs {
 			if mm, ok := ins.(*ssa.MakeMap); ok {
 				sent = mm
@@ -660,7 +660,7 @@ func listenDiff(c *an.Check, listen *ssa.Function, wantF *types.Var) {
 	okBoth := true
 	why := ""
 	found := 0
-	for _, b := range listen.Blocks {
+	for _, b := range an.ScanBlocks(listen) {
 		for _, ins := range b.Instrs {
 			lk, ok := ins.(*ssa.Lookup)
 			if !ok || !lk.CommaOk {
@@ -698,7 +698,7 @@ func listenDiff(c *an.Check, listen *ssa.Function, wantF *types.Var) {
 	}())
 	// sent-set bookkeeping follows successful sends
 	nUpd, nDel := 0, 0
-	for _, b := range listen.Blocks {
+	for _, b := range an.ScanBlocks(listen) {
 		for _, ins := range b.Instrs {
 			if mu, ok := ins.(*ssa.MapUpdate); ok && mu.Map == ssa.Value(sent) {
 				nUpd++
@@ -719,7 +719,7 @@ func listenDiff(c *an.Check, listen *ssa.Function, wantF *types.Var) {
 			return ok && an.BuiltinName(call) == "delete" && len(call.Call.Args) > 0 && call.Call.Args[0] == ssa.Value(sent)
 		},
 		Reqs: []an.Req{{Name: "the stream Send of this iteration succeeded", Holds: func(s *an.State, at ssa.Instruction) bool {
-			for _, b := range listen.Blocks {
+			for _, b := range an.ScanBlocks(listen) {
 				for _, ins := range b.Instrs {
 					if call, ok := ins.(*ssa.Call); ok && call.Call.IsInvoke() && call.Call.Method.Name() == "Send" && s.IsNil(call) {
 						return true
@@ -750,7 +750,7 @@ func listenCleanupGates(c *an.Check) {
 	}
 	var cleanups []*ssa.Function
 	for _, g := range an.WithClosures(listen)[1:] {
-		for _, b := range g.Blocks {
+		for _, b := range an.ScanBlocks(g) {
 			for _, ins := range b.Instrs {
 				if isClear(ins) {
 					cleanups = append(cleanups, g)
@@ -825,7 +825,7 @@ func c25(c *an.Check) {
 				return true
 			}
 			// "existed" result of the get-or-create helper is false
-			for _, b := range listen.Blocks {
+			for _, b := range an.ScanBlocks(listen) {
 				for _, ins := range b.Instrs {
 					if e, ok := ins.(*ssa.Extract); ok && e.Index == 1 && e.Type().String() == "bool" && s.IsFalse(e) {
 						return true
@@ -893,7 +893,7 @@ func c25(c *an.Check) {
 		if cleanup != nil {
 			st := p.NewState(cleanup)
 			var getArg ssa.Value
-			for _, b := range h.sess.Blocks {
+			for _, b := range an.ScanBlocks(h.sess) {
 				for _, ins := range b.Instrs {
 					if call, ok := ins.(*ssa.Call); ok {
 						if f, ok := call.Call.Value.(*ssa.Function); ok && f.Name() == "getPeer" {
@@ -902,7 +902,7 @@ func c25(c *an.Check) {
 					}
 				}
 			}
-			for _, b := range cleanup.Blocks {
+			for _, b := range an.ScanBlocks(cleanup) {
 				for _, ins := range b.Instrs {
 					if call, ok := ins.(*ssa.Call); ok {
 						if f, ok := call.Call.Value.(*ssa.Function); ok && f.Name() == "maybeReleasePeer" && getArg != nil {
@@ -954,7 +954,7 @@ func c25(c *an.Check) {
 		},
 		Reqs: []an.Req{{Name: "both peer slots empty", Holds: func(s *an.State, at ssa.Instruction) bool {
 			a, b := false, false
-			for _, bl := range relS.Blocks {
+			for _, bl := range an.ScanBlocks(relS) {
 				for _, ins := range bl.Instrs {
 					if u, ok := ins.(*ssa.UnOp); ok {
 						if an.IsFieldLoad(u, peerA) && s.IsNil(u) {
@@ -981,7 +981,7 @@ func c25(c *an.Check) {
 			var pa, pb ssa.Value
 			if u, ok := k.(*ssa.UnOp); ok {
 				if a, ok := u.X.(*ssa.Alloc); ok {
-					for _, bl := range nk.Blocks {
+					for _, bl := range an.ScanBlocks(nk) {
 						for _, ins := range bl.Instrs {
 							if st, ok := ins.(*ssa.Store); ok {
 								if fa, ok := st.Addr.(*ssa.FieldAddr); ok && fa.X == ssa.Value(a) {
@@ -1046,7 +1046,7 @@ func releaseGates(c *an.Check, which string) {
 	p := c.P
 	fieldLoads := func(fn *ssa.Function, f *types.Var) []ssa.Value {
 		var out []ssa.Value
-		for _, b := range fn.Blocks {
+		for _, b := range an.ScanBlocks(fn) {
 			for _, ins := range b.Instrs {
 				if u, ok := ins.(*ssa.UnOp); ok && u.Op == token.MUL && an.IsFieldLoad(u, f) {
 					out = append(out, u)
@@ -1128,7 +1128,7 @@ func clientCloseOnExit(c *an.Check) {
 	if len(closeFns) == 1 {
 		why = "no deferred call in the session routine runs the close handler: a failing stream leaves the open epoch and both mailboxes as they were"
 		callsClose := func(g *ssa.Function) bool {
-			for _, b := range g.Blocks {
+			for _, b := range an.ScanBlocks(g) {
 				for _, ins := range b.Instrs {
 					call, ok := ins.(*ssa.Call)
 					if !ok {
@@ -1151,7 +1151,7 @@ func clientCloseOnExit(c *an.Check) {
 			}
 			return false
 		}
-		for _, b := range ex.Blocks {
+		for _, b := range an.ScanBlocks(ex) {
 			for _, ins := range b.Instrs {
 				d, ok := ins.(*ssa.Defer)
 				if !ok {
@@ -1179,7 +1179,7 @@ func clientRetryAndReset(c *an.Check) {
 	okB, whyB := false, "NewClient not found"
 	if nc != nil {
 		whyB = "the per-peer session tracker container is not constructed with keyed.WithBackoff: with the default (nil) backoff configuration a failed session call is never retried"
-		for _, b := range nc.Blocks {
+		for _, b := range an.ScanBlocks(nc) {
 			for _, ins := range b.Instrs {
 				call, ok := ins.(*ssa.Call)
 				if !ok {
@@ -1202,7 +1202,7 @@ func clientRetryAndReset(c *an.Check) {
 	nRel, bad := 0, ""
 	for _, g := range an.WithClosures(hp) {
 		rel, del := false, false
-		for _, b := range g.Blocks {
+		for _, b := range an.ScanBlocks(g) {
 			for _, ins := range b.Instrs {
 				call, ok := ins.(*ssa.Call)
 				if !ok {
@@ -1267,7 +1267,7 @@ func wakeHelpers(c *an.Check) {
 				}
 				return ""
 			}
-			for _, b := range bc.Blocks {
+			for _, b := range an.ScanBlocks(bc) {
 				for _, ins := range b.Instrs {
 					if u, ok := ins.(*ssa.UnOp); ok && an.IsFieldLoad(u, waitF) && s.IsNil(u) {
 						return ""
@@ -1311,7 +1311,7 @@ func ownCheck(c *an.Check) {
 	}
 	// the ownership flag: the captured bool cell set to true in the block that places the message
 	var flag *ssa.Alloc
-	for _, b := range lit.Blocks {
+	for _, b := range an.ScanBlocks(lit) {
 		places := false
 		for _, ins := range b.Instrs {
 			if v, _, ok := storeTo(ins, outF); ok && !isNilConst(v) {
@@ -1351,7 +1351,7 @@ func ownCheck(c *an.Check) {
 			return isK && k.Value != nil && k.Value.String() == "false"
 		},
 		Reqs: []an.Req{{Name: "the outgoing slot is known empty or known to hold another message", Holds: func(s *an.State, at ssa.Instruction) bool {
-			for _, b := range lit.Blocks {
+			for _, b := range an.ScanBlocks(lit) {
 				for _, ins := range b.Instrs {
 					if u, ok := ins.(*ssa.UnOp); ok && an.IsFieldLoad(u, outF) && s.IsNil(u) {
 						return true
@@ -1362,7 +1362,7 @@ func ownCheck(c *an.Check) {
 				return true
 			}
 			// session closed: the close handler (the only writer of open=nil) empties the slot in the same critical section
-			for _, b := range lit.Blocks {
+			for _, b := range an.ScanBlocks(lit) {
 				for _, ins := range b.Instrs {
 					if u, ok := ins.(*ssa.UnOp); ok && an.IsFieldLoad(u, openF) && s.IsNil(u) {
 						return true
@@ -1394,7 +1394,7 @@ func ownCheck(c *an.Check) {
 				if cleared {
 					return true
 				}
-				for _, b := range g.Blocks {
+				for _, b := range an.ScanBlocks(g) {
 					for _, ins := range b.Instrs {
 						if u, ok := ins.(*ssa.UnOp); ok && an.IsFieldLoad(u, outF) && s.IsNil(u) {
 							return true
